@@ -1007,7 +1007,7 @@ fn scenario(seed: u64, case: u64, which: u64, scratch: &Path) -> ExecResult {
         Ok(x) => x,
         Err(v) => return ExecResult { violations: vec![v], counters, sample: J::Null, hash: 0 },
     };
-    let names = ["flush-parked-before-register+rotate+major", "merge-parked-before-finish+flush", "merge-parked-unlocked+second-compactor+flush", "merge-parked+drop_range", "flush-parked-after-snapshot+writes+rotate"];
+    let names = ["flush-parked-before-register+rotate+major", "merge-parked-before-finish+flush", "merge-parked-unlocked+second-compactor+flush", "merge-parked+drop_range", "flush-parked-after-snapshot+writes+rotate", "flush-parked-before-register+clear"];
     let name = names[(which as usize) % names.len()];
     sample.set("scenario", J::s(name));
     let hash = fnv64(format!("{}{seed}{case}", sample.render()).as_bytes());
@@ -1101,6 +1101,29 @@ fn scenario(seed: u64, case: u64, which: u64, scratch: &Path) -> ExecResult {
                 release();
                 let _ = h.join();
                 let _ = d.join();
+            }
+            5 => {
+                // the race the crate guards against in register_tables (fjall#287): the sealed memtables a flush is
+                // writing out disappear under it (clear takes neither the flush lock nor the compaction state)
+                let h = spawn_parked("flush:before_register", 806, Box::new(move |s| s.tree.flush_active_memtable(wm)));
+                let parked = wait_parked(Duration::from_secs(5));
+                bump(&mut counters, if parked { "scenario_parked" } else { "scenario_not_parked" }, 1);
+                sh.tree.clear().map_err(|e| Violation::new(&["C06", "C15"], "error:clear", format!("clear returned Err: {e:?}")))?;
+                // the cleared tree is empty for every later snapshot: in the log, a delete of every key at the
+                // sequence number of the version clear() installed
+                let cs = sh.visible.get().saturating_sub(1);
+                {
+                    let mut log = sh.log.write().unwrap_or_else(|e| e.into_inner());
+                    for (ki, l) in log.iter_mut().enumerate() {
+                        l.push((cs, None));
+                        sh.acked[ki].fetch_add(1, Ordering::AcqRel);
+                    }
+                }
+                check_all(&sh, &format!("{name}: after clear while parked"))?;
+                write_some(&sh, &mut rng, 3, &mut uid);
+                check_all(&sh, &format!("{name}: while parked"))?;
+                release();
+                let _ = h.join();
             }
             _ => {
                 let h = spawn_parked("flush:after_snapshot", 805, Box::new(move |s| s.tree.flush_active_memtable(wm)));
